@@ -5,6 +5,7 @@ Case = {"kind": "ds"|"dsu"|"cg",           Dataset() | Dataset(default_union=Tru
         "reg":  [name…],                     graphs registered explicitly (may stay empty)
         "quads": [[s,p,o,g]…],               g = "D" (default graph) | "i<n>" | "b<n>"
         "api": int,                          which public calls build the dataset / bytes vs str input
+        "enc": [format, encoding] | None,    serialize(format, encoding=…) for that ONE format (utf-8 | latin-1 | ascii | utf-16)
         "d2": {"reg": […], "quads": […]} | None}      second dataset for the patch clause (ds/dsu only)
 Terms are tokens into the vocabulary below (i = IRI, l = literal, b = blank node); a graph name
 shares its token with the same term used inside triples.
@@ -42,7 +43,10 @@ RULE = ("random datasets: 0-4 named graphs (IRI and blank-node names, registered
         "nquads/trig/trix/hext/json-ld/patch and parsed into an empty Dataset; plus a random edit d2 of the dataset for "
         "the patch clause.  non-trivial = at least two destination graphs carry triples or a blank node is a graph "
         "name; distinct = distinct (kind, reg, quads, d2)")
-ASSUMPTIONS = ["store.contexts() lists every graph that holds a triple (C02)",
+ASSUMPTIONS = ["serialize(encoding=e): the caller either decodes the bytes with e or hands the bytes to the parser "
+               "(formats that are UTF-8 by definition ignore e); either way must round-trip; UnicodeEncodeError is an "
+               "acceptable refusal (the case is then judged with the default encoding); silent replacement is a violation",
+               "store.contexts() lists every graph that holds a triple (C02)",
                "triple-level text (term spelling, literal quoting, prefixes) round-trips (C03/C05); literals typed "
                "xsd:string are identified with plain literals (RDF 1.1) when comparing",
                "blank nodes linked only through blank-node cycles inside one graph are not generated (JSON-LD node "
@@ -59,10 +63,13 @@ IRIS = {"i1": URIRef(E + "a"), "i2": URIRef(E + "b"), "i3": URIRef(E + "c/d#e"),
         "i5": URIRef(E + "g2"), "i6": URIRef("urn:g:3"), "i7": URIRef(E + "p"), "i8": URIRef(E + "q"),
         "i9": RDF.type,
         # used only by hand-written witnesses (the generator builds no RDF collections — C03's subject)
-        "i10": RDF.first, "i11": RDF.rest, "i12": RDF.nil}
+        "i10": RDF.first, "i11": RDF.rest, "i12": RDF.nil,
+        # non-ASCII: two look-alike graph names (Greek alpha / Cyrillic a: both become `?` under a lossy codec),
+        # one name / node that Latin-1 can represent
+        "i13": URIRef(E + "gr\u03b1ph"), "i14": URIRef(E + "gr\u0430ph"), "i15": URIRef(E + "s\u00e9")}
 LITS = {"l1": Literal(""), "l2": Literal("x"), "l3": Literal('a"b\\c\'d'), "l4": Literal("line1\nline2\ttab"),
         "l5": Literal("é☃\U0001F600"), "l6": Literal("<&> {} # _:z . ; }"), "l7": Literal("x", lang="en"),
-        "l8": Literal(0), "l9": Literal(False), "l10": Literal("x", datatype=URIRef(E + "dt"))}
+        "l8": Literal(0), "l9": Literal(False), "l10": Literal("x", datatype=URIRef(E + "dt")), "l11": Literal("caf\u00e9", lang="fr")}
 BNODES = {"b1": BNode("b1"), "b2": BNode("b2"), "b3": BNode("b3"), "b4": BNode("b4")}
 TERM = {**IRIS, **LITS, **BNODES}
 GNAMES = ["i4", "i5", "i6", "b1", "b2", "i1"]     # i1 = a name that is mostly used as an ordinary subject
@@ -70,6 +77,9 @@ SUBJ = ["i1", "i2", "i3", "i4", "i5", "b1", "b2", "b3", "b4"]
 OBJ_I = ["i1", "i2", "i3", "i4", "i6"]
 CG_DEFAULT = "b99"     # token of a ConjunctiveGraph's default context (a BNode identifier)
 DEFAULT_ID = URIRef("urn:x-rdflib:default")
+NONASCII_NAMES = ["i13", "i14", "i15"]
+NONASCII = {"i13", "i14", "i15", "l5", "l11"}
+ENCODINGS = ["utf-8", "latin-1", "ascii", "utf-16"]      # None = the default (str result) is the no-axis case
 FORMATS = ["nquads", "trig", "trix", "hext", "jsonld", "patch"]
 RDFLIB_FMT = {"jsonld": "json-ld"}
 
@@ -158,9 +168,10 @@ def _triple(rng, prefer_b):
     return [s, p, o]
 
 
-def _gen_ds(rng):
+def _gen_ds(rng, nonascii=False):
     n_named = rng.choice([0, 1, 1, 2, 2, 3, 4])
-    names = rng.sample(GNAMES, n_named)
+    names = rng.sample(GNAMES + (NONASCII_NAMES * 2 if nonascii else []), n_named)
+    names = list(dict.fromkeys(names))
     reg = [g for g in names if rng.random() < 0.6]
     if rng.random() < 0.25:
         reg.append(rng.choice(GNAMES))          # a registered graph that probably stays empty
@@ -172,6 +183,11 @@ def _gen_ds(rng):
     quads = []
     for _ in range(rng.randint(0, 9)):
         t = _triple(rng, bnames)
+        if nonascii and rng.random() < 0.4:
+            if rng.random() < 0.5:
+                t[0] = rng.choice(NONASCII_NAMES)
+            if t[1] != "i9":
+                t[2] = rng.choice(["l5", "l11", "i13", "i14", "i15"])
         g = rng.choice(dests)
         if rng.random() < 0.3 and quads:
             t = list(rng.choice(quads)[:3])       # a triple present in several graphs
@@ -206,12 +222,15 @@ def _edit(rng, reg, quads):
 
 def gen_case(rng, tier, i):
     kind = rng.choice(["ds", "ds", "ds", "dsu", "dsu", "cg"])
-    reg, quads = _gen_ds(rng)
+    enc = None
+    if rng.random() < 0.45:       # the `encoding=` option of serialize(), on ONE format per case
+        enc = [rng.choice(FORMATS if kind != "cg" else FORMATS[:-1]), rng.choice(ENCODINGS)]
+    reg, quads = _gen_ds(rng, nonascii=enc is not None or rng.random() < 0.15)
     d2 = None
     if kind != "cg" and rng.random() < 0.6:
         reg2, quads2 = _edit(rng, reg, quads)
         d2 = {"reg": reg2, "quads": quads2}
-    return {"kind": kind, "reg": reg, "quads": quads, "api": rng.randrange(6), "d2": d2}
+    return {"kind": kind, "reg": reg, "quads": quads, "api": rng.randrange(6), "d2": d2, "enc": enc}
 
 
 # ------------------------------------------------------------------ building the datasets through the public API
@@ -366,7 +385,7 @@ def _trix_term(e):
 
 
 def read_trix(text):
-    root = ET.fromstring(text.encode("utf-8") if isinstance(text, str) else text)
+    root = ET.fromstring(text)     # str: the declared encoding is ignored; bytes: it is honoured
     st, anon = [], 0
     for g in root:
         if g.tag != _TX + "graph":
@@ -566,23 +585,67 @@ def run_impl(case):
     exp_default = expected_quads(quads, DEFAULT_ID)
     exp_literal = expected_quads(quads, default_id)
     before = got_quads(ds)
+    enc_axis = case.get("enc")
+
+    def parse_back(fmt, data):
+        return got_quads(Dataset(default_union=(api % 3 == 0)).parse(data=data, format=fmt))
+
+    def is_ok(got):
+        # a ConjunctiveGraph's default context is also a blank-node-named graph of the store: both readings
+        # are accepted by the oracle; which one a format takes is pinned by the model
+        return isoutil.iso(exp_default, got) or (kind == "cg" and isoutil.iso(exp_literal, got))
+
     for F in FORMATS:
         if F == "patch" and kind == "cg":
             continue
         fmt = RDFLIB_FMT.get(F, F)
         kw = {"operation": "add"} if F == "patch" else {}
+        enc = enc_axis[1] if enc_axis and enc_axis[0] == F else None
+        # candidates = [(document text for the independent reader, document as handed to the parser)]
         try:
-            if api % 2:
+            if enc is not None:
+                stats["enc_" + enc] = 1
+                try:
+                    data = ds.serialize(format=fmt, encoding=enc, **kw)
+                except UnicodeEncodeError:
+                    # acceptable refusal: the codec cannot represent the data and the serializer says so
+                    stats["enc_refused"] = 1
+                    enc = None
+            if enc is not None:
+                cands = []
+                try:            # the caller decodes with the encoding that was asked for
+                    t = data.decode(enc)
+                    cands.append((t, t))
+                except UnicodeError:
+                    pass
+                try:            # or hands the bytes to the parser (formats that are UTF-8 by definition / XML declaration)
+                    cands.append((data if F == "trix" else data.decode("utf-8"), data))
+                except UnicodeError:
+                    cands.append((None, data))
+            elif api % 2:
                 data = ds.serialize(format=fmt, encoding="utf-8", **kw)
-                text = data.decode("utf-8")
+                cands = [(data.decode("utf-8"), data)]
             else:
-                data = text = ds.serialize(format=fmt, **kw)
+                data = ds.serialize(format=fmt, **kw)
+                cands = [(data, data)]
         except Exception as e:  # noqa: BLE001
             obs += ["ERR-serialize:" + _exc(e), "ERR-serialize:" + _exc(e)]
             viol.append(f"error-{F}: serialize raised {e!r}"[:300])
             continue
+        # (b) where does each triple land after parsing into an empty Dataset (first candidate that round-trips)
+        results = []
+        for text, doc in cands:
+            try:
+                got = parse_back(fmt, doc)
+                results.append((is_ok(got), text, got, None))
+            except Exception as e:  # noqa: BLE001
+                results.append((False, text, None, e))
+        results.sort(key=lambda r: (not r[0], r[2] is None))
+        ok, text, got, err = results[0]
         # (a) which graph label was each statement written under
         try:
+            if text is None:
+                raise ValueError("document cannot be decoded")
             if F == "patch":
                 st = [(r[1],) + r[2:] for r in read_patch(text) if r[0] == "A"]
                 if any(r[0] != "A" for r in read_patch(text)):
@@ -593,22 +656,14 @@ def run_impl(case):
         except Exception as e:  # noqa: BLE001
             obs.append("ERR-read:" + _exc(e))
             viol.append(f"unreadable-{F}: output not readable by the independent reader: {e!r}"[:300])
-        # (b) where does each triple land after parsing into an empty Dataset
-        try:
-            back = Dataset(default_union=(api % 3 == 0)).parse(data=data, format=fmt)
-            got = got_quads(back)
-        except Exception as e:  # noqa: BLE001
-            obs.append("ERR-parse:" + _exc(e))
-            viol.append(f"error-{F}: parse of own output raised {e!r}"[:300])
+        if got is None:
+            obs.append("ERR-parse:" + _exc(err))
+            viol.append(f"error-{F}: parse of own output raised {err!r}"[:300])
             continue
         obs.append(line(quad_rows(got)))
-        ok = isoutil.iso(exp_default, got)
-        if not ok and kind == "cg":
-            # a ConjunctiveGraph's default context is also a blank-node-named graph of the store:
-            # both readings are accepted by the oracle; which one a format takes is pinned by the model
-            ok = isoutil.iso(exp_literal, got)
         if not ok:
-            viol.append(f"roundtrip-{F}: quads after {F} round trip differ from the dataset: expected "
+            viol.append(f"roundtrip-{F}: quads after {F} round trip"
+                        + (f" with encoding={enc!r}" if enc else "") + " differ from the dataset: expected "
                         f"{line(quad_rows(exp_default))} got {line(quad_rows(got))}"[:600])
     if got_quads(ds) != before:
         stats["source_mutated"] = 1     # C13's subject; recorded, not judged here
@@ -649,7 +704,8 @@ def run_impl(case):
                   "name_used_in_triples": int(any(g in q[:3] for q in quads for g in dests if g != "D")),
                   "empty_registered": int(any(g not in dests for g in reg))})
     return {"obs": obs, "viol": viol, "nontrivial": len(dests) >= 2 or bool(bn_names),
-            "key": json.dumps([kind, sorted(reg), sorted(quads), case.get("d2")], sort_keys=True), "stats": stats}
+            "key": json.dumps([kind, sorted(reg), sorted(quads), case.get("d2"), case.get("enc")], sort_keys=True),
+            "stats": stats}
 
 
 # ------------------------------------------------------------------ the model side
@@ -691,6 +747,8 @@ def select_model_obs(case, out):
 
 def shrink(case):
     quads, reg, d2 = case["quads"], case["reg"], case.get("d2")
+    if case.get("enc"):
+        yield {**case, "enc": None}
     if d2 is not None:
         yield {**case, "d2": None}
         for i in range(len(d2["quads"])):
@@ -751,7 +809,36 @@ def _m_jsonld_list_cell(case, result):
         c in q[:3] and q[3] != g for c, g in cells for q in case["quads"])
 
 
+def _only_fmt(result, F):
+    return bool(result["viol"]) and all(v.split(":")[0].endswith("-" + F) for v in result["viol"])
+
+
+def _unencodable(case, enc):
+    for q in case["quads"]:
+        for t in q:
+            if t in TERM:
+                try:
+                    str(TERM[t]).encode(enc)
+                except UnicodeEncodeError:
+                    return True
+    return False
+
+
+def _m_jsonld_lossy_encoding(case, result):
+    """JSON-LD with encoding='latin-1'/'ascii' and a character that codec cannot represent: written as '?'"""
+    e = case.get("enc")
+    return bool(e) and e[0] == "jsonld" and e[1] in ("latin-1", "ascii") and _only_fmt(result, "jsonld") \
+        and _unencodable(case, e[1])
+
+
+def _m_trix_utf16(case, result):
+    """TriX with encoding='utf-16': the final newline is written as ONE latin-1 byte after the UTF-16 document"""
+    e = case.get("enc")
+    return bool(e) and e == ["trix", "utf-16"] and _only_fmt(result, "trix")
+
+
 MATCHERS = {"jsonld_list_cell_shared_across_graphs": _m_jsonld_list_cell,
+            "jsonld_lossy_encoding_replaces": _m_jsonld_lossy_encoding, "trix_utf16_trailing_byte": _m_trix_utf16,
             "jsonld_bnode_named_graph": _m_jsonld_bnode_graph, "trix_bnode_graph_name": _m_trix_bnode_graph,
             "patch_default_union_diff": _m_patch_union, "patch_empty_target": _m_patch_empty_target,
             "trig_bnode_label_squared": _m_trig_squared}
